@@ -87,6 +87,8 @@ def call_entry(entry, token, keyarg, payload_arg=None, other_token=None):
     """Returns (payload_bytes_or_claims, protected_headers_list, is_claims)."""
     from joserfc import jws, jwt, rfc7797
     tok = copy.deepcopy(token)
+    if entry.endswith("+b64token"):
+        entry = entry[:-len("+b64token")]
     if entry.endswith("+again"):
         entry = entry[:-len("+again")]
         kw = {"algorithms": ALL_JWS}
@@ -164,6 +166,11 @@ def judge(entry, token, plan, keymode, payload_arg=None, none_allowed=False, oth
         # whatever comes back must be what was signed: the token is judged with the payload that was actually handed over
         payload_arg = b"other-" + (payload_arg or b"")
     rfc7797 = entry.startswith("rfc7797")
+    if entry.endswith("+b64token"):
+        # a token carrying the RFC 7797 switch shown to an RFC 7515 / JWT entry point: refusing is fine, but whatever is
+        # returned as verified must be what the signer signed (the signer followed RFC 7797)
+        entry = entry[:-len("+b64token")]
+        rfc7797 = True
     if entry.endswith("+again"):
         entry = entry[:-len("+again")]
     if entry.endswith("+registry"):
@@ -737,6 +744,14 @@ def run_shard(ctx, spec):
                     ctx.dontcare("foreign-base-rejected")  # C07's business
             elif r != "ok":
                 ctx.finding(f"C01:base:{mplan['ser']}:{r[0]}", r[1], {"case": case, "fault": {"kind": "base"}, "entry": e, "token": token, "token2": token2})
+        if mplan["b64"] is not None:
+            plain = ["jws.deserialize_compact", "jws.extract+validate"] + (["jwt.decode"] if entry != "jwt.decode" else []) if mplan["ser"] == "compact" else ["jws.deserialize_json"]
+            for e in plain:
+                e += "+b64token"
+                r = run_fault(case, mplan, keymode, token, token2, {"kind": "base"}, e)
+                ctx.case(("base", label, e), cls="base:b64-token-at-plain-entry:" + ("refused" if r is None else "accepted"))
+                if r not in (None, "ok"):
+                    ctx.finding(f"C01:b64-token-at-plain-entry:{mplan['ser']}:{r[0]}", r[1], {"case": case, "fault": {"kind": "base"}, "entry": e, "token": token, "token2": token2})
         stride = 4 if any(a in SLOW for a in algs) else 1
         n = 0
         for fault in enumerate_faults(token, mplan, case["pairs"], stride):
